@@ -30,6 +30,7 @@ import GraphiqModel.Proofs.MetricsHistReach
 import GraphiqModel.Proofs.MetricsHist
 import GraphiqModel.Proofs.MetricsHistFuse
 import GraphiqModel.Proofs.MetricsHistCheck
+import GraphiqModel.Proofs.MetricsHistWires
 namespace Graphiq.C12
 open Graphiq Graphiq.Dag Graphiq.Metrics Relation
 
@@ -610,6 +611,19 @@ theorem group_is_fuse_of_runs_on_wired_wires {c : Dag} {P : Reg → List NodeId}
       c.groupOneQubitGates.1.regs = c.regs ∧
       ∀ r, wiredWire c.groupOneQubitGates.1 P' r = fuseWire r (wiredWire c P r) :=
   groupOneQubitGates_wiredWire g hh
+
+/-- **`unwrap_nodes` on the wire sequences as wired**: succeeds, and every wire carries the flatMap-unwrap of what it carried
+    (the classical threading of the other operations is unchanged) -/
+theorem unwrap_nodes_is_flatMap_on_wired_wires {c : Dag} {P : Reg → List NodeId} (g : Good c P) (hpl : AllPlain c) :
+    c.unwrapNodes.2 = none ∧ ∃ P', Good c.unwrapNodes.1 P' ∧ AllPlain c.unwrapNodes.1 ∧
+      ∀ r, wiredWire c.unwrapNodes.1 P' r = (wiredWire c P r).flatMap Op.unwrap :=
+  unwrapNodes_wiredWire g hpl
+
+/-- **`remove_identity` on the wire sequences as wired**: succeeds, and every wire carries its non-identity operations, in order -/
+theorem remove_identity_is_filter_on_wired_wires {c : Dag} {P : Reg → List NodeId} (g : Good c P) (hpl : AllPlain c) :
+    c.removeIdentity.2 = none ∧ ∃ P', Good c.removeIdentity.1 P' ∧ AllPlain c.removeIdentity.1 ∧
+      ∀ r, wiredWire c.removeIdentity.1 P' r = (wiredWire c P r).filter (fun o => !decide (o.kind = .identity)) :=
+  removeIdentity_wiredWire g hpl
 
 /-- … evaluated in the kernel on the circuit of §8 with a measurement inserted by `insert_at` (classical register `c0` left
     unthreaded) before the last gate of `e0`: every wire of the grouped circuit, as `reg_gate_history` returns it, carries `fuseWire`
